@@ -149,6 +149,9 @@ def envs_for(seed, n, phase=0):
 # ---------------------------------------------------------------------------
 # scenario generation
 
+SMALL_MOLECULES = ['DIOX', 'DIOX']
+
+
 def gen_structure(rng, tier, focus):
     big = tier == 'thorough'
     weights = [3, 2, 2, 4, 3, 3, 1, 3, 3, 2, 3, 1]
@@ -206,6 +209,8 @@ def gen_structure(rng, tier, focus):
         perm = list(range(nch))
         rng.shuffle(perm)
         ops.append(['order', perm])
+    if focus == 'C17' and rng.random() < 0.45:
+        ops.append(['small', rng.choice(SMALL_MOLECULES), rng.choice(['before', 'before', 'after'])])
     if rng.random() < 0.10:
         ops.append(['water', rng.randint(1, 3), rng.choice(['before', 'after'])])
     if rng.random() < 0.10:
@@ -321,6 +326,51 @@ def gen_task(rng, tier, focus):
     struct, lengths = gen_structure(rng, tier, focus)
     task = {'structure': struct, 'argv': gen_argv(rng, tier, focus, lengths), 'cwd_pre': gen_cwd_pre(rng),
             'rng_seed': rng.randrange(1 << 30), 'inject': gen_inject(rng, focus)}
+    if focus == 'C17':
+        r = rng.random()
+        argv = task['argv']
+        total = sum(lengths)
+        letters = 'HHHHHHEEBGITSC'
+        if r < 0.5:
+            k = rng.random()
+            if k < 0.45:
+                n = total
+            elif k < 0.65 and len(set(lengths)) == 1:
+                n = lengths[0]
+            elif k < 0.8:
+                n = 1
+            else:
+                n = max(0, total + rng.choice([-2, -1, 1, 2, 5]))
+            if rng.random() < 0.5:
+                # helix-rich sequences: runs of every length class
+                ss = ''
+                while len(ss) < n:
+                    ss += 'H' * rng.choice([1, 2, 3, 4, 5, 6, 7, 8, 9, 12]) + rng.choice('CETSB') * rng.choice([1, 1, 2])
+                ss = ss[:n]
+            else:
+                ss = ''.join(rng.choice(letters) for _ in range(n))
+            if ss:
+                argv += ['-ss', ss]
+            else:
+                argv += ['-collagen']
+        elif r < 0.55:
+            argv += ['-collagen']
+        else:
+            argv += ['-dssp', 'simdssp']
+            peer = {'seed': rng.randrange(1 << 30), 'version': rng.choice(['3.0.0', '2.2.1', '3.0.0']),
+                    'mode': rng.choice(['random', 'helix'])}
+            f = rng.random()
+            if f < 0.5:
+                kind = rng.choice(['exit', 'missing', 'version', 'version', 'drop', 'dup', 'noheader', 'badletter', 'breaks',
+                                   'truncate', 'truncate'])
+                if kind == 'version':
+                    peer['fault'] = ['version', rng.choice(['4.4.0', '4.0.5', 'unknown', ''])]
+                elif kind == 'truncate':
+                    peer['fault'] = ['truncate', rng.randrange(1 << 16), rng.choice(['line', 'byte'])]
+                else:
+                    peer['fault'] = [kind, rng.randrange(1 << 10)]
+                peer['fault_call'] = rng.choice([0, 0, 1])
+            task['peer'] = peer
     if focus == 'C07' and rng.random() < 0.5:
         # finalisation-fault scenario: make sure the gate opens, then interrupt the CLI's finalisation
         r = rng.random()
@@ -898,3 +948,156 @@ class C11Check(PCheck):
 
 
 CHECK_C11 = core.register(C11Check())
+
+
+class C17Check(PCheck):
+    id = 'C17'
+    focus = 'C17'
+    properties = ('C17',)
+    rule = ('scenario = one simulated martinize2 run with -ss <sequence> / -collagen / -dssp <simulated peer>: systems with '
+            'unselected (non-protein) molecules before and after the protein chains, chains of equal and unequal length, sequences '
+            'of full, one-molecule, one-element and mismatching length; the DSSP peer answers per residue from the run PRNG and '
+            'injects exit status, missing executable, unsupported/unparsable version, truncated output, lost/duplicated lines, '
+            'missing header, illegal letters, break lines. Checked at the stage boundaries of the real processors. '
+            'distinct = scenario digest; non-trivial = an annotation stage ran')
+    probes_expected = ['ss_annotate_residues', 'ss_annotate_dssp', 'ss_unselected_before_selected', 'ss_rule_one_molecule_long',
+                       'ss_rule_one_element', 'ss_rule_full_length', 'ss_rule_mismatch', 'ss_peer_fault_rejected',
+                       'ss_dssp_molecule_checked', 'ss_translation_checked', 'ss_long_helix', 'ss_medium_helix', 'ss_short_helix']
+    stub_components = PCheck.stub_components + ['the DSSP executable: in-process peer answering through the subprocess seam of '
+                                                'vermouth.dssp.dssp (no DSSP binary in the sandbox); the mdtraj path is not driven']
+
+    def budgets(self, tier):
+        if tier == 'thorough':
+            return {'runs': 6000, 'determinism': 60, 'wall': 3300, 'workers': 32}
+        return {'runs': 300, 'determinism': 10, 'wall': 900, 'workers': 32}
+
+
+CHECK_C17 = core.register(C17Check())
+
+
+# ---------------------------------------------------------------------------
+# C17 library-level variant: the real processors on generated systems (reported separately)
+
+class _MiniChild:
+    def __init__(self):
+        self.failed = []
+        self.stats = core.Stats()
+        self.peer = None
+
+    def fail(self, prop, invariant, expected=None, actual=None, signature=None, detail=None):
+        self.failed.append({'property': prop, 'invariant': invariant, 'expected': expected, 'actual': actual,
+                            'signature': signature or invariant, 'detail': detail})
+
+
+def c17_library(seed, n):
+    """-> (failure | None, systems run, stats)"""
+    from vermouth.molecule import Molecule
+    from vermouth.system import System
+    from vermouth import selectors
+    from vermouth.dssp.dssp import AnnotateResidues, AnnotateMartiniSecondaryStructures
+    from . import ssoracle
+    mini = _MiniChild()
+    oracle = ssoracle.Oracle(mini)
+    prot = ['ALA', 'GLY', 'LYS', 'TRP', 'SER', 'GLU']
+    for i in range(n):
+        rng = core.sub_rng(seed, 'c17lib', i)
+        system = System()
+        nmol = rng.randint(1, 5)
+        lengths = []
+        equal_len = rng.random() < 0.35
+        base_len = rng.choice([1, 2, 3, 5, 8, 9, 13, 20])
+        desc = []
+        for m in range(nmol):
+            is_prot = rng.random() < 0.7
+            nres = base_len if (equal_len and is_prot) else rng.choice([1, 2, 3, 5, 8, 9, 13, 20])
+            mol = Molecule()
+            key = rng.choice([0, 1, 10])
+            keys = []
+            for r in range(nres):
+                resname = rng.choice(prot) if is_prot else rng.choice(['POPC', 'W', 'LIG'])
+                for a in range(rng.randint(1, 3)):
+                    keys.append((key, {'chain': 'ABCDE'[m], 'resid': r + 1 + 10 * (m % 2), 'resname': resname,
+                                       'atomname': ['N', 'CA', 'C'][a], 'insertion_code': ''}))
+                    key += rng.choice([1, 1, 2])
+            if rng.random() < 0.3 and len(keys) > 2:
+                # node order differs from key order (as after repair and sorting)
+                tail = keys[-1]
+                keys = [tail] + keys[:-1]
+            for k, attrs in keys:
+                mol.add_node(k, **attrs)
+            system.molecules.append(mol)
+            desc.append([is_prot, nres])
+            if is_prot:
+                lengths.append(nres)
+        total = sum(lengths)
+        k = rng.random()
+        if k < 0.4:
+            nseq = total
+        elif k < 0.6 and lengths:
+            nseq = lengths[0]
+        elif k < 0.75:
+            nseq = 1
+        else:
+            nseq = max(0, total + rng.choice([-3, -1, 1, 2]))
+        if rng.random() < 0.6:
+            seq = ''
+            while len(seq) < nseq:
+                seq += 'H' * rng.choice([1, 2, 3, 4, 5, 6, 7, 8, 9, 10, 15]) + rng.choice('CETSBGI') * rng.choice([1, 1, 2, 3])
+            seq = seq[:nseq]
+        else:
+            seq = ''.join(rng.choice('HHHGIEBTSC') for _ in range(nseq))
+        proc = AnnotateResidues(attribute='aasecstruct', sequence=seq, molecule_selector=selectors.is_protein)
+        oracle.begin_annotate_residues(proc, system)
+        raised = None
+        try:
+            proc.run_system(system)
+        except Exception as err:
+            raised = err
+        if not seq and not lengths:
+            oracle.before.pop('AnnotateResidues', None)
+        else:
+            oracle.end_annotate_residues(proc, system, raised)
+        if mini.failed:
+            return dict(mini.failed[0], detail={'system': desc, 'sequence': seq, 'history': i}), i + 1, mini.stats
+        if raised is None:
+            proc2 = AnnotateMartiniSecondaryStructures()
+            oracle.begin_martini(proc2, system)
+            raised2 = None
+            try:
+                proc2.run_system(system)
+            except Exception as err:
+                raised2 = err
+            oracle.end_martini(proc2, system, raised2)
+            if mini.failed:
+                return dict(mini.failed[0], detail={'system': desc, 'sequence': seq, 'history': i}), i + 1, mini.stats
+    return None, n, mini.stats
+
+
+def _c17_generate(self, rng, run_index, tier):
+    sc = PCheck.generate(self, rng, run_index, tier)
+    sc['library'] = {'seed': rng.randrange(1 << 30), 'n': 150 if tier == 'thorough' else 40}
+    return sc
+
+
+def _c17_execute(self, scenario):
+    res = PCheck.execute(self, scenario)
+    if res['verdict'] != PASS or not scenario.get('library'):
+        return res
+    bad, n, st = c17_library(scenario['library']['seed'], scenario['library']['n'])
+    probes = res['stats']['probes']
+    for k, v in st.probes.items():
+        probes['lib:' + k] = probes.get('lib:' + k, 0) + v
+        if k in ('ss_long_helix', 'ss_medium_helix', 'ss_short_helix', 'ss_unselected_before_selected', 'ss_rule_mismatch'):
+            probes[k] = probes.get(k, 0) + v
+    probes['library_systems'] = probes.get('library_systems', 0) + n
+    if bad is not None:
+        return result(VIOLATION, invariant=bad['invariant'] + ':library', signature=bad['signature'], expected=bad['expected'],
+                      actual=bad['actual'], detail=bad['detail'], stats=res['stats'], run_digest=res['digest'])
+    return res
+
+
+C17Check.generate = _c17_generate
+C17Check.execute = _c17_execute
+C17Check.stub_components = C17Check.stub_components + [
+    'library-level variant (probes lib:*, library_systems): the real AnnotateResidues / AnnotateMartiniSecondaryStructures run on '
+    'generated systems without a process around them']
